@@ -42,11 +42,89 @@ import (
 
 	"verif/internal/ev"
 	"verif/internal/hx"
+	"verif/internal/kf"
 	"verif/internal/memfs"
 	"verif/internal/run"
 )
 
 const prop = "C16"
+
+// Open findings and their regions (left out of the search by construction while the finding is open):
+//
+// findSoleRoot: a component whose sole root is <template v-once> is emitted at every include.
+// Region: a bare component consisting of one template wrapper that is reached >= 2 times in some
+// render link of the history; the wrapper is then replaced by a plain marked element.
+//
+// findElseTail: the v-else tail after <x v-for v-once> renders when the loop is skipped as already
+// rendered. Region: such an element with a non-empty list that is arrived at >= 2 times in some render
+// link; the tail is then dropped.
+const (
+	findSoleRoot = "C16-sole-root-template-once-ignored"
+	findElseTail = "C16-else-tail-after-skipped-once-loop"
+)
+
+// eachOnce calls fn for every once item of the site (fn may modify it).
+func eachOnce(c *Case, fn func(it *Item, comp string)) {
+	var walk func(items []Item, comp string)
+	walk = func(items []Item, comp string) {
+		for i := range items {
+			if items[i].K == "once" {
+				fn(&items[i], comp)
+			}
+			walk(items[i].Kids, comp)
+			walk(items[i].Named, comp)
+		}
+	}
+	for i := range c.Pages {
+		walk(c.Pages[i].Items, "")
+		walk(c.Pages[i].Ph, "")
+		walk(c.Pages[i].Pf, "")
+	}
+	for _, n := range compOrder {
+		walk(c.Comps[n], n)
+	}
+	for _, n := range layoutOrder {
+		l := c.Layouts[n]
+		walk(l.Head, "")
+		walk(l.Before, "")
+		walk(l.After, "")
+	}
+}
+
+// avoidKnown rewrites what lies in the region of an open finding and counts it.
+func avoidKnown(rec *ev.Rec, c *Case, openRoot, openTail bool) {
+	if !openRoot && !openTail {
+		return
+	}
+	maxReached, maxArrived := map[int]int{}, map[int]int{}
+	for _, s := range c.Steps {
+		if fails(c, s) {
+			continue
+		}
+		for _, l := range expect(c, s).ls {
+			for m, n := range l.reached {
+				if n > maxReached[m] {
+					maxReached[m] = n
+				}
+			}
+			for m, n := range l.arrived {
+				if n > maxArrived[m] {
+					maxArrived[m] = n
+				}
+			}
+		}
+	}
+	eachOnce(c, func(it *Item, comp string) {
+		if openRoot && it.Ch == "tpl" && comp != "" && indexOf(c.Bare, comp) >= 0 && maxReached[it.M] >= 2 {
+			it.Ch = ""
+			rec.Excluded(findSoleRoot)
+		}
+		if openTail && it.Self && it.El && it.N >= 1 && maxArrived[it.M] >= 2 {
+			it.El = false
+			rec.Excluded(findElseTail)
+		}
+	})
+}
 
 // ---------------------------------------------------------------------------------------------
 // description
@@ -95,8 +173,16 @@ type Item struct {
 	// generators give the SAME attribute and value to different marked elements: two <script v-once
 	// src="/assets/js/component.js"> in different places are still distinct elements; only the
 	// data-m text tells them apart.
-	At   int    `json:"at,omitempty"`
-	O    bool   `json:"o,omitempty"` // inc, slot: v-once on the include tag / <slot> element itself
+	At int  `json:"at,omitempty"`
+	O  bool `json:"o,omitempty"` // inc, slot: v-once on the include tag / <slot> element itself
+	// inc: a boolean prop handed to the component: 1 -> :k="t" (true), 2 -> :k="f" (false), 0 -> none
+	Kp int `json:"kp,omitempty"`
+	// the condition (of an if item / of the chain a once item or O item belongs to) is the prop: v-if="k".
+	// Only inside component files; every include of such a component passes the prop.
+	Kc bool `json:"kc,omitempty"`
+	// once with Self: the v-for element is followed by <p data-m="zM" v-else>z</p>, the tail that
+	// renders when the list is EMPTY (not when the loop is skipped because it was rendered before)
+	El   bool   `json:"el,omitempty"`
 	N    int    `json:"n,omitempty"`
 	Cond bool   `json:"cond,omitempty"`
 	Eq   int    `json:"eq,omitempty"`
@@ -177,6 +263,10 @@ type Case struct {
 	// it as "TX". Its marked elements are elements of another component: they carry the same data-m
 	// text as X's but are emitted independently of them (once per render each).
 	Twins []string `json:"twins,omitempty"`
+	// Bare lists components whose file consists ONLY of marked elements (no head marker element):
+	// shared asset components. Their items are once items that are plain, carry their own v-if, or
+	// v-for; or a single <template v-once> wrapper as the sole root of the file.
+	Bare  []string `json:"bare,omitempty"`
 	Steps []Step   `json:"steps"`
 }
 
@@ -191,7 +281,7 @@ func stringy(e string) bool     { return e == "string" || e == "byte" || e == "r
 
 // layoutOrder bounds chains by construction: Next must come later in this list.
 var layoutOrder = []string{"l1", "l2", "l3", "base"}
-var compOrder = []string{"A", "B", "C", "D", "E"}
+var compOrder = []string{"A", "B", "C", "D", "E", "F", "G"}
 
 // twinOf resolves an include target: for "TX" with X in Twins it returns X and true.
 func twinOf(c *Case, name string) (string, bool) {
@@ -245,6 +335,9 @@ func onceBody(it Item) string {
 
 // condSrc is the condition of an if item / of a chain a once item belongs to.
 func condSrc(it Item) string {
+	if it.Kc {
+		return "k"
+	}
 	if it.Eq > 0 {
 		return fmt.Sprintf("x == %d", it.Eq)
 	}
@@ -256,16 +349,23 @@ func condSrc(it Item) string {
 
 // onceAttrs / onceHead: the directive (and chain membership) of an include tag or <slot> with O set.
 func onceAttrs(it Item) string {
+	prop := ""
+	switch it.Kp {
+	case 1:
+		prop = ` :k="t"`
+	case 2:
+		prop = ` :k="f"`
+	}
 	if !it.O {
-		return ""
+		return prop
 	}
 	switch it.Ch {
 	case "if":
-		return fmt.Sprintf(` v-once v-if="%s"`, condSrc(it))
+		return prop + fmt.Sprintf(` v-once v-if="%s"`, condSrc(it))
 	case "else":
-		return " v-else v-once"
+		return prop + " v-else v-once"
 	}
-	return " v-once"
+	return prop + " v-once"
 }
 
 func onceHead(it Item) string {
@@ -328,6 +428,9 @@ func src(items []Item, sb *strings.Builder) {
 				sb.WriteString(onceBody(it))
 			}
 			fmt.Fprintf(sb, "</%s>\n", it.Tag)
+			if it.Self && it.El {
+				fmt.Fprintf(sb, "<p data-m=\"z%d\" v-else>z</p>\n", it.M)
+			}
 			switch it.Ch {
 			case "elseif":
 				fmt.Fprintf(sb, "<p data-m=\"z%d\" v-else>z</p>\n", it.M)
@@ -414,7 +517,9 @@ func files(c Case) map[string]string {
 	}
 	for name, items := range c.Comps {
 		var sb strings.Builder
-		fmt.Fprintf(&sb, "<i data-m=\"c%s\">c</i>\n", name)
+		if indexOf(c.Bare, name) < 0 {
+			fmt.Fprintf(&sb, "<i data-m=\"c%s\">c</i>\n", name)
+		}
 		src(items, &sb)
 		out["components/"+name+".vuego"] = sb.String()
 		if indexOf(c.Twins, name) >= 0 {
@@ -458,6 +563,25 @@ func validate(c Case) error {
 	seenM := map[int]bool{}
 	inContent := 0 // > 0 while inside supplied slot content or fallback content
 	inLayout := false
+	// usesK: the component's own file has a condition on the prop k
+	var usesKItems func(items []Item) bool
+	usesKItems = func(items []Item) bool {
+		for _, it := range items {
+			if it.Kc || usesKItems(it.Kids) || usesKItems(it.Named) {
+				return true
+			}
+		}
+		return false
+	}
+	kcOK := func(it Item, comp int) error {
+		if !it.Kc {
+			return nil
+		}
+		if comp < 0 || inContent > 0 || it.Eq > 0 {
+			return fmt.Errorf("condition on the prop outside a component file")
+		}
+		return nil
+	}
 	// onceOn validates v-once on an include tag / <slot>
 	onceOn := func(it Item, inLoop bool) error {
 		if !it.O {
@@ -502,6 +626,15 @@ func validate(c Case) error {
 				if it.Self && (it.N < 0 || it.N > 3) {
 					return fmt.Errorf("bad n")
 				}
+				if it.El && (!it.Self || it.Ch != "") {
+					return fmt.Errorf("o%d: bad v-else tail", it.M)
+				}
+				if err := kcOK(it, comp); err != nil {
+					return err
+				}
+				if it.Kc && it.Ch == "" {
+					return fmt.Errorf("o%d: prop condition without chain", it.M)
+				}
 				if it.At < 0 || it.At >= len(idAttrs) || (it.At > 0 && strings.HasPrefix(it.Ch, "tpl")) {
 					return fmt.Errorf("o%d: bad attribute %d", it.M, it.At)
 				}
@@ -535,6 +668,9 @@ func validate(c Case) error {
 				if head || (it.Eq > 0 && (!inLoop || inContent > 0)) || it.Eq > 3 || it.Eq < 0 {
 					return fmt.Errorf("bad if")
 				}
+				if err := kcOK(it, comp); err != nil {
+					return err
+				}
 				if err := walk(it.Kids, file, comp, inLoop, false); err != nil {
 					return err
 				}
@@ -553,6 +689,12 @@ func validate(c Case) error {
 				}
 				if err := onceOn(it, inLoop); err != nil {
 					return err
+				}
+				if err := kcOK(it, comp); err != nil {
+					return err
+				}
+				if it.Kp < 0 || it.Kp > 2 || (it.Kp == 0 && usesKItems(c.Comps[base])) {
+					return fmt.Errorf("include of %q in %s: bad prop", it.Comp, file)
 				}
 				if len(it.Named) > 0 && len(c.Layouts) > 0 {
 					return fmt.Errorf("named slot content in a site with layouts")
@@ -614,6 +756,18 @@ func validate(c Case) error {
 		if items, ok := c.Comps[name]; ok {
 			if err := walk(items, name, indexOf(compOrder, name), false, false); err != nil {
 				return err
+			}
+		}
+	}
+	for _, x := range c.Bare {
+		items, ok := c.Comps[x]
+		if !ok || len(items) == 0 || indexOf(c.Twins, x) >= 0 {
+			return fmt.Errorf("bad bare component %q", x)
+		}
+		for _, it := range items {
+			sole := it.Ch == "tpl" && len(items) == 1
+			if it.K != "once" || (it.Ch != "" && it.Ch != "if" && !sole) {
+				return fmt.Errorf("bare component %q: only plain / own-v-if / v-for marked elements or a sole template wrapper", x)
 			}
 		}
 	}
@@ -695,6 +849,8 @@ type link struct {
 	seen    map[string]bool // file#marker
 	reached map[int]int     // marker -> number of times its position was reached in this render
 	loop    []int
+	kprop   []bool      // values of the prop k handed down by the include tags being expanded
+	arrived map[int]int // v-for+v-once elements: how often the element itself was arrived at
 	// what the layout chain hands on from the page: contents of its #ph / v-slot:pf templates
 	ph, pf []Item
 	// bookkeeping for the regions of known findings
@@ -707,10 +863,13 @@ type link struct {
 }
 
 func newLink(c *Case) *link {
-	return &link{c: c, seen: map[string]bool{}, reached: map[int]int{}, inhReached: map[int]bool{}, passedFalse: map[string]bool{}, lateIf: map[int]bool{}, twins: map[string]int{}}
+	return &link{c: c, seen: map[string]bool{}, reached: map[int]int{}, inhReached: map[int]bool{}, arrived: map[int]int{}, passedFalse: map[string]bool{}, lateIf: map[int]bool{}, twins: map[string]int{}}
 }
 
 func (l *link) cond(it Item) bool {
+	if it.Kc {
+		return len(l.kprop) > 0 && l.kprop[len(l.kprop)-1]
+	}
 	if it.Eq > 0 {
 		return len(l.loop) > 0 && l.loop[len(l.loop)-1] == it.Eq
 	}
@@ -788,6 +947,12 @@ func (l *link) walk(items []Item) {
 				}
 				l.sb.WriteString(")")
 			}
+			if it.Self {
+				l.arrived[it.M]++
+				if it.El && it.N == 0 {
+					fmt.Fprintf(&l.sb, "z%d()", it.M) // the list is empty: the v-else tail renders
+				}
+			}
 		case "for":
 			for k := 1; k <= it.N; k++ {
 				l.loop = append(l.loop, k)
@@ -811,7 +976,13 @@ func (l *link) walk(items []Item) {
 				continue
 			}
 			base, twin := twinOf(l.c, it.Comp)
-			fmt.Fprintf(&l.sb, "c%s()", base) // a twin's body, head marker included, is X's text
+			if indexOf(l.c.Bare, base) < 0 {
+				fmt.Fprintf(&l.sb, "c%s()", base) // a twin's body, head marker included, is X's text
+			}
+			nk := len(l.kprop)
+			if it.Kp > 0 {
+				l.kprop = append(l.kprop, it.Kp == 1)
+			}
 			old, oldFile := l.scope, l.file
 			l.scope = &scope{def: it.Kids, named: it.Named, parent: old, file: oldFile}
 			l.file = ""
@@ -823,6 +994,7 @@ func (l *link) walk(items []Item) {
 			}
 			l.walk(l.c.Comps[base])
 			l.scope, l.file = old, oldFile
+			l.kprop = l.kprop[:nk]
 		case "pslot":
 			content := l.ph
 			if it.Nm {
@@ -1007,6 +1179,9 @@ func where(c *Case, m int) string {
 		if it.Pre {
 			s = fmt.Sprintf("<%s %s v-pre> in %s", it.Tag, sp, file)
 		}
+		if it.Self && it.El {
+			s += " followed by <p v-else>"
+		}
 		switch it.Ch {
 		case "if":
 			s = fmt.Sprintf("<%s %s v-if=\"%s\"> in %s", it.Tag, sp, condSrc(*it), file)
@@ -1171,6 +1346,12 @@ func classify(c Case) (bool, []string) {
 				}
 				if it.Self {
 					set[fmt.Sprintf("once+for-same-element n=%d", it.N)] = true
+					if it.El {
+						set["once+for-same-element with v-else tail"] = true
+					}
+				}
+				if it.Kc {
+					set["once=chain-member on the prop k"] = true
 				}
 				if it.At > 0 {
 					attrUse[it.At]++
@@ -1271,6 +1452,12 @@ func classify(c Case) (bool, []string) {
 		walk(p.Ph, "page-slot-template", false, false, false)
 		walk(p.Pf, "page-slot-template", false, false, false)
 	}
+	for _, n := range c.Bare {
+		set["bare-component (only marked elements)"] = true
+		if len(c.Comps[n]) == 1 && c.Comps[n][0].Ch == "tpl" {
+			set["bare-component: sole root <template v-once>"] = true
+		}
+	}
 	compsWith := 0
 	for _, n := range compOrder {
 		before := distinct
@@ -1348,6 +1535,12 @@ func classify(c Case) (bool, []string) {
 			}
 			if len(l.lateIf) > 0 {
 				set["own-v-if false before first reach"] = true
+			}
+			for m, n := range l.arrived {
+				if n >= 2 {
+					_ = m
+					set["once+for-same-element arrived at >=2 times"] = true
+				}
 			}
 			for x, bits := range l.twins {
 				if bits == 3 {
@@ -1460,7 +1653,7 @@ func (u *uni) slotCh(name string, tags []string, ch string, cond bool, eq int) [
 	return its
 }
 
-var pageSlots = []string{"s0", "s1", "s2", "s3", "s4", "s5", "q0", "q1", "a0", "a1", "a2", "b0", "c0", "t0", "t1", "f0", "f1", "e0", "e1", "i0", "i1", "k0", "k1", "k2"}
+var pageSlots = []string{"s0", "s1", "s2", "s3", "s4", "s5", "q0", "q1", "a0", "a1", "a2", "b0", "c0", "t0", "t1", "f0", "f1", "e0", "e1", "i0", "i1", "k0", "k1", "k2", "g0", "g1", "s6"}
 
 // slots in the page's #ph / v-slot:pf templates (sites with layouts)
 var handedSlots = []string{"ph0", "ph1", "pf0"}
@@ -1533,11 +1726,21 @@ func universe(fill []string, p uparams) Case {
 	for k := 0; k < p.kA; k++ {
 		P = append(P, inc("D"))
 	}
+	// bare asset component E (only marked elements): prop false at the first include, true later
+	P = append(P, Item{K: "inc", Comp: "E", Kp: 2}, Item{K: "inc", Comp: "E", Kp: 1}, Item{K: "inc", Comp: "E", Kp: 1})
+	// bare component F: sole root <template v-once>, included twice
+	P = append(P, inc("F"), inc("F"))
+	// v-for + v-once element with a v-else tail, arrived at nB times
+	if u.fill["s6"] {
+		u.kinds++
+		P = append(P, Item{K: "for", M: u.id(), N: p.nB, Kids: []Item{{K: "once", M: u.id(), Tag: leafTags[u.kinds%len(leafTags)], Self: true, El: true, N: p.nA, Sp: (u.sp + u.kinds - 1) % len(spellings), At: u.at}}})
+	}
 	P = append(P, u.slot("s5", all)...)
 	var Q []Item
 	Q = append(Q, u.slot("q0", all)...)
 	// page 1 meets the twin first
 	Q = append(Q, Item{K: "for", M: u.id(), N: p.nB, Kids: []Item{inc("B")}}, inc("TA"), inc("A"))
+	Q = append(Q, Item{K: "inc", Comp: "E", Kp: 1}, Item{K: "inc", Comp: "E", Kp: 2}) // the reverse order
 	Q = append(Q, u.slot("q1", all)...)
 	var A []Item
 	A = append(A, u.slot("a0", all)...)
@@ -1553,10 +1756,20 @@ func universe(fill []string, p uparams) Case {
 	D := []Item{{K: "slot", Kids: u.slot("f0", all)}, {K: "for", M: u.id(), N: 2, Kids: []Item{{K: "slot", Nm: true, Kids: u.slot("f1", all)}}}}
 	// a <slot v-once v-if> in a loop: filled (content or this fallback) at its first instantiation only
 	D = append(D, Item{K: "for", M: u.id(), N: 2, Kids: []Item{{K: "slot", O: true, M: u.id(), Ch: "if", Cond: true, Kids: []Item{{K: "div", M: u.id()}}}}})
+	// E: an unconditional asset, an optional second one, and an optional one under the prop
+	E := []Item{{K: "once", M: u.id(), Tag: "style", Sp: u.sp % len(spellings), At: u.at}}
+	E = append(E, u.slot("g0", leafTags)...)
+	g1 := u.slot("g1", leafTags)
+	for i := range g1 {
+		g1[i].Ch, g1[i].Kc, g1[i].Pre = "if", true, false
+	}
+	E = append(E, g1...)
+	F := []Item{{K: "once", M: u.id(), Tag: "script", Ch: "tpl", Sp: (u.sp + 1) % len(spellings)}}
 	c := Case{
 		Pages:   []Page{{Items: P}, {Items: Q}},
-		Comps:   map[string][]Item{"A": A, "B": B, "C": C, "D": D},
+		Comps:   map[string][]Item{"A": A, "B": B, "C": C, "D": D, "E": E, "F": F},
 		Twins:   []string{"A"},
+		Bare:    []string{"E", "F"},
 		Layouts: map[string]Layout{},
 	}
 	mkL1 := func(next string) Layout {
@@ -1590,7 +1803,7 @@ func universe(fill []string, p uparams) Case {
 }
 
 // historyFor renders page 0 twice through e with page 1 (through another entry) in between.
-func historyFor(k int) []Step {
+func historyFor(k int, short bool) []Step {
 	e := entries[k%len(entries)]
 	o := entries[(k+3)%len(entries)]
 	last := Step{P: 0, Entry: e}
@@ -1599,6 +1812,14 @@ func historyFor(k int) []Step {
 	}
 	// page 0 twice, a failing render of it, page 0 again, the other page, a second failing render
 	// (other cause, other entry), page 0 once more
+	if short {
+		// sites with several marked elements (most of the enumeration): page 0, a failing render of it,
+		// page 0 again, the other page, page 0 once more
+		return []Step{
+			{P: 0, Entry: e}, {P: 0, Entry: e, Boom: booms[k%len(booms)]}, {P: 0, Entry: e},
+			{P: 1, Entry: o}, last,
+		}
+	}
 	return []Step{
 		{P: 0, Entry: e}, {P: 0, Entry: e},
 		{P: 0, Entry: e, Boom: booms[k%len(booms)]}, {P: 0, Entry: e},
@@ -1634,8 +1855,9 @@ type gen struct {
 	next   int
 	budget int // marked elements still to place
 	comps  []string
-	twins  []string // components that have a twin file
-	at     int      // the identity-like attribute of this site (0: none)
+	twins  []string        // components that have a twin file
+	at     int             // the identity-like attribute of this site (0: none)
+	usesK  map[string]bool // components with a condition on the prop k
 	// inContent > 0 while drawing supplied slot content or fallback content (no <slot>, no x==k there)
 	inContent int
 	namedOK   bool // named slot content only in sites without layouts
@@ -1643,6 +1865,37 @@ type gen struct {
 }
 
 func (g *gen) id() int { g.next++; return g.next }
+
+// bare draws the body of an asset component: only marked elements (plain, under the prop k or a
+// constant, or carrying v-for), or a single <template v-once> wrapper as the sole root.
+func (g *gen) bare(name string) []Item {
+	l := "bare" + name
+	sp := func(i int) int {
+		return rapid.SampledFrom([]int{0, 0, 1, 2, 3, 4}).Draw(g.t, fmt.Sprintf("%s.%dsp", l, i))
+	}
+	if rapid.IntRange(0, 4).Draw(g.t, l+"sole") == 0 {
+		g.budget--
+		return []Item{{K: "once", M: g.id(), Tag: rapid.SampledFrom(leafTags).Draw(g.t, l+"tag"), Ch: "tpl", Sp: sp(0)}}
+	}
+	var out []Item
+	n := rapid.IntRange(1, 3).Draw(g.t, l+"#")
+	for i := 0; i < n && g.budget > 0; i++ {
+		g.budget--
+		it := Item{K: "once", M: g.id(), Tag: rapid.SampledFrom(leafTags).Draw(g.t, fmt.Sprintf("%s.%dtag", l, i)), Sp: sp(i), At: g.at}
+		switch rapid.IntRange(0, 5).Draw(g.t, fmt.Sprintf("%s.%dshape", l, i)) {
+		case 0, 1, 2: // under the prop
+			it.Ch, it.Kc = "if", true
+			g.usesK[name] = true
+		case 3:
+			it.Ch, it.Cond = "if", rapid.Bool().Draw(g.t, fmt.Sprintf("%s.%dcond", l, i))
+		case 4:
+			it.Self = true
+			it.N = rapid.SampledFrom(loopLens).Draw(g.t, fmt.Sprintf("%s.%dn", l, i))
+		}
+		out = append(out, it)
+	}
+	return out
+}
 
 // onceOn puts v-once on an include tag / <slot> and possibly makes it a chain member.
 func (g *gen) onceOn(it *Item, l string, inLoop bool) {
@@ -1702,6 +1955,7 @@ func (g *gen) items(label string, comp, depth int, inLoop bool, max int) []Item 
 				it.Tag = rapid.SampledFrom(leafTags).Draw(g.t, l+"tag")
 				it.Self = true
 				it.N = rapid.SampledFrom(loopLens).Draw(g.t, l+"n")
+				it.El = rapid.IntRange(0, 2).Draw(g.t, l+"el") == 0
 			case shape <= 2 && depth < 3: // a marked container
 				it.Tag = rapid.SampledFrom(boxTags).Draw(g.t, l+"tag")
 				it.Kids = g.items(l, comp, depth+1, inLoop, 2)
@@ -1748,6 +2002,9 @@ func (g *gen) items(label string, comp, depth int, inLoop bool, max int) []Item 
 			out = append(out, it)
 		case "inc":
 			it := Item{K: "inc", Comp: rapid.SampledFrom(allowed).Draw(g.t, l+"comp")}
+			if g.usesK[strings.TrimPrefix(it.Comp, "T")] {
+				it.Kp = rapid.IntRange(1, 2).Draw(g.t, l+"kp")
+			}
 			if rapid.IntRange(0, 4).Draw(g.t, l+"o?") == 0 {
 				g.onceOn(&it, l, inLoop)
 			}
@@ -1786,7 +2043,7 @@ func (g *gen) items(label string, comp, depth int, inLoop bool, max int) []Item 
 	return out
 }
 
-func genCase() func(t *rapid.T) Case {
+func genCase(rec *ev.Rec, openRoot, openTail bool) func(t *rapid.T) Case {
 	return func(t *rapid.T) Case {
 		g := &gen{t: t}
 		g.budget = rapid.IntRange(1, run.Pick(4, 6)).Draw(t, "once")
@@ -1820,8 +2077,15 @@ func genCase() func(t *rapid.T) Case {
 			g.inContent--
 		}
 		// components first (innermost budget use is fine: every part draws from the same budget)
+		g.usesK = map[string]bool{}
 		for i := nComps - 1; i >= 0; i-- {
-			c.Comps[g.comps[i]] = g.items("c"+g.comps[i], i, 1, false, 3)
+			name := g.comps[i]
+			if indexOf(g.twins, name) < 0 && g.budget > 0 && rapid.IntRange(0, 3).Draw(t, "bare"+name) == 0 {
+				c.Comps[name] = g.bare(name)
+				c.Bare = append(c.Bare, name)
+				continue
+			}
+			c.Comps[name] = g.items("c"+name, i, 1, false, 3)
 		}
 		// layouts
 		chain := layoutOrder[:nLay]
@@ -1892,8 +2156,39 @@ func genCase() func(t *rapid.T) Case {
 		for _, n := range g.comps {
 			if !used[n] {
 				k := rapid.IntRange(0, nPages-1).Draw(t, "orphan"+n)
-				c.Pages[k].Items = append(c.Pages[k].Items, Item{K: "inc", Comp: n})
+				orphan := Item{K: "inc", Comp: n}
+				if g.usesK[n] {
+					orphan.Kp = rapid.IntRange(1, 2).Draw(t, "orphankp"+n)
+				}
+				c.Pages[k].Items = append(c.Pages[k].Items, orphan)
 			}
+		}
+		// include tags drawn before their component was (handed-on slot templates) still owe it the prop
+		owed := 0
+		var fix func(items []Item)
+		fix = func(items []Item) {
+			for i := range items {
+				if items[i].K == "inc" && items[i].Kp == 0 && g.usesK[strings.TrimPrefix(items[i].Comp, "T")] {
+					owed++
+					items[i].Kp = 1 + owed%2
+				}
+				fix(items[i].Kids)
+				fix(items[i].Named)
+			}
+		}
+		for i := range c.Pages {
+			fix(c.Pages[i].Items)
+			fix(c.Pages[i].Ph)
+			fix(c.Pages[i].Pf)
+		}
+		for _, n := range layoutOrder {
+			if l, ok := c.Layouts[n]; ok {
+				fix(l.Before)
+				fix(l.After)
+			}
+		}
+		for _, n := range g.comps {
+			fix(c.Comps[n])
 		}
 		// every page is rendered at least once, then arbitrary further steps
 		nSteps := rapid.IntRange(nPages, 8).Draw(t, "steps")
@@ -1914,6 +2209,7 @@ func genCase() func(t *rapid.T) Case {
 			}
 			c.Steps = append(c.Steps, s)
 		}
+		avoidKnown(rec, &c, openRoot, openTail)
 		return c
 	}
 }
@@ -1929,6 +2225,8 @@ func TestProp(t *testing.T) {
 	defer run.Finish(t, rec)
 	run.Witnesses(rec, prop, replay)
 
+	known := kf.Load()
+	openRoot, openTail := known.Open(findSoleRoot), known.Open(findElseTail)
 	shard, shards := run.Shard()
 	// exhaustive: every choice of 1..k slots of the universe site x parameter sets x entry histories
 	params := []uparams{
@@ -1972,7 +2270,8 @@ enum:
 					continue
 				}
 				c := universe(fill, p)
-				c.Steps = historyFor(k)
+				c.Steps = historyFor(k, len(fill) > 1 && !run.Thorough())
+				avoidKnown(rec, &c, openRoot, openTail)
 				nt, cls := classify(c)
 				if !run.Each(rec, "enum", c, nt, cls, check) {
 					ok = false
@@ -1985,7 +2284,7 @@ enum:
 		rec.Exhaustive(fmt.Sprintf("universe site: every choice of 1..%d of its slots x %d parameter sets x 9/2(thorough 3)/2 entry histories for 1/2/3 filled slots (%d cases)", maxFill, len(params), n))
 	}
 
-	run.Rapid(t, rec, "random", genCase(), classify, check)
+	run.Rapid(t, rec, "random", genCase(rec, openRoot, openTail), classify, check)
 }
 
 func TestReplay(t *testing.T) { run.ReplayMain(t, prop, replay) }
